@@ -389,8 +389,24 @@ def profile_part(chk):
                        "benchmark_suites": {"S": {"gauge_adapter": "RebenchLog", "command": "%(benchmark)s %(invocation)s",
                                                   "invocations": N, "benchmarks": ["B%d" % b for b in range(nb)]}},
                        "experiments": exps}
+                # every third scenario: extra arguments with a line end (a folded YAML scalar), a tab, a backslash
+                odd = i % 3 == 2
+                if odd:
+                    raw["benchmark_suites"]["S"]["benchmarks"] = [{"B%d" % b: {"extra_args": rng.choice(["-x\n", "a\tb", "p\\q", "-y"])}}
+                                                                  for b in range(nb)]
+                    chk.count("profile_scenarios_with_tab_or_line_end_in_extra_args")
+
+                def start_key(args):
+                    t = args.split()
+                    k = next(j for j, w in enumerate(t) if w.startswith("B") and w[1:].isdigit())
+                    return t[k], t[k + 1]
                 default = os.path.join(d, "default.data")
-                ses = session.run_session(raw, lambda b, k, inv: (0, "%s: iterations=1 runtime: 1000us\n" % b), default)
+                ses = session.run_session(raw, lambda b, k, inv: (0, "%s: iterations=1 runtime: 1000us\n" % b), default, start_key=start_key)
+                if odd and not isinstance(ses.result, str):
+                    again = session.run_session(raw, lambda b, k, inv: (0, "x"), default, start_key=start_key)
+                    if isinstance(again.result, str) or again.starts:
+                        chk.violation("C06 recorded profiles are found again by the next session (nothing is executed a second time)", dict(config=raw),
+                                      "no start, no exception", (again.result, again.starts[:4]))
                 case = dict(config=raw)
                 if isinstance(ses.result, str):
                     chk.violation("C06 session with profile experiments ends without an exception", case, "no exception",
